@@ -60,6 +60,8 @@ def plan(tier, seed):
     jobs.append(dict(name="C01-L4-level-decode", kind="llsym", payload=lv, timeout=600))
     jobs.append(dict(name="C01-lemma-json-cells", kind="pyfunc", timeout=300,
                      payload=dict(func="vf.pyshim.lemma_tables:json_cells")))
+    jobs.append(dict(name="C01-lemma-time-factor-table", kind="pyfunc", timeout=300,
+                     payload=dict(func="vf.pyshim.lemma_time2:time_factor_table")))
     extra = dict(
         explanation="Reduced claim: the places where writer and reader must agree on framing. Row-group split (real "
                     "iter_dataframe: slices tile [0,n)), page split and counts (real write_column lattice), "
